@@ -65,7 +65,7 @@ let rand_options ?(allow_fork = false) r : options =
   let o = if chance r 1 2 then { o with o_stop = rand_stop r } else o in
   let o = if chance r 1 5 then { o with o_env_behavior = z 1 } else o in
   let o = if chance r 1 4 then { o with o_env_extra = Some (List.map s (pick r [ [ "A=1" ]; [ "A=1"; "B= x y" ]; [] ])) } else o in
-  let o = if chance r 1 5 then { o with o_wd = Some (s (pick r [ "/w/child"; "sub"; "/tmp" ])) } else o in
+  let o = if chance r 1 5 then { o with o_wd = Some (s (pick r [ "/w/child"; "sub"; "/tmp"; "/w/child"; "sub"; "/tmp"; "" ])) } else o in
   let o = if i_of o.o_in.rd_type <= 1 && i_of o.o_in.rd_handle = 0 && i_of o.o_in.rd_file = 0 && o.o_in.rd_path = None
              && not o.o_parent && not o.o_discard && chance r 1 5
     then { o with o_input_data = true; o_input_size = z (pick r [ 0; 1; 10; 5000 ]) } else o in
@@ -180,6 +180,7 @@ let start_scenarios () : (string * options * z list list option * (world -> worl
     ("missing-program", o, argv [ "nonexistent" ], id);
     ("not-executable", o, argv [ "/tmp/f" ], id);
     ("bad-wd", { o with o_wd = Some (s "/nonexistent") }, c 0, id);
+    ("empty-wd", { o with o_wd = Some (s "") }, c 0, id);
     ("bad-path", { o with o_out = rd ~p:"/nonexistent/x" 7 }, c 0, id);
     ("fork", { o with o_fork = true }, None, id);
   ]
@@ -239,7 +240,21 @@ let fam_c04 tier r =
       [ { default_options with o_fork = true; o_wd = Some (s "/nonexistent") };
         { default_options with o_fork = true; o_in = rd ~h:9 5 };
         { default_options with o_fork = true; o_out = rd ~h:11 5; o_wd = Some (s "/w/child") } ] in
+  (* the parent has closed one of its standard streams and that stream is redirected to the parent:
+     the library falls back to the null device; when THAT fails, the cause reported is the cause *)
+  let fallback = List.concat_map (fun closed ->
+      let fds = List.filter (fun (k, _) -> int_of_z k <> closed) user_fds in
+      let opts = match closed with
+        | 0 -> { default_options with o_in = rd 2 }
+        | 1 -> { default_options with o_out = rd 2 }
+        | _ -> { default_options with o_err = rd 2 } in
+      let base = { sc_world = world_with ~fds ~files:user_files ~rlimit:16 [ [ a_sleep 20; a_exit 3 ] ];
+                   sc_ops = [ new_ (); start ~opts (c 0); pid () ] @ post_c04 } in
+      base :: faults_in_ops ~lat:0 ~errnos:[ 23; 24; 4 ] ~max_per:60 (function OStart _ -> true | _ -> false)
+        { base with sc_ops = take_ops 3 base.sc_ops @ [ destroy () ] })
+      [ 0; 1; 2 ] in
   [ { name = "C04/single-faults"; exhaustive = true; scs = fault_family tier post_c04 };
+    { name = "C04/closed-standard-stream-falls-back-to-the-null-device-x-faults"; exhaustive = true; scs = fallback };
     { name = "C04/failed-start-next-to-a-zombie"; exhaustive = true; scs = beside };
     { name = "C04/fork-mode-child-side-failures"; exhaustive = true; scs = forkfail };
     { name = "C04/fault-pairs"; exhaustive = false; scs = fault_pairs r (if tier = "quick" then 300 else 20000) post_c04 } ]
@@ -294,7 +309,18 @@ let fam_c12 tier r =
   ignore r;
   let masks = [| []; [ 15 ]; [ 2; 13; 17; 34 ]; List.init 31 (fun k -> k + 1) |] in
   let disps = [| []; [ (z 15, DIgnore); (z 2, DHandler) ]; [ (z 13, DIgnore); (z 1, DIgnore); (z 31, DHandler); (z 40, DIgnore) ] |] in
-  [ { name = "C12/masks-x-dispositions-x-single-faults"; exhaustive = true;
+  (* the caller ignores SIGCHLD (and SIGPIPE): starts that fail at every stage, and every single
+     fault in a start, must leave those dispositions alone *)
+  let ignored = List.concat_map (fun (nm, opts, av, _) ->
+      if not (List.mem nm [ "default"; "missing-program"; "not-executable"; "bad-wd"; "empty-wd"; "bad-path"; "fork" ]) then [] else
+      let script = [ a_sleep 20; a_exit 3 ] in
+      let base = { sc_world = world_with ~fds:user_fds ~files:user_files ~rlimit:16 ~disp:[ (z 17, DIgnore); (z 13, DIgnore) ]
+                                ~extra_fs:[ (s "/tmp/f", FFile); (s "/w/bin", FDir); (s "/w/bin/c0", FExec script) ] [ script ];
+                   sc_ops = [ new_ (); start ~opts ~script:(if opts.o_fork then script else []) av; pid (); destroy () ] } in
+      base :: faults_in_ops ~lat:0 ~errnos:[ 11 ] ~max_per:400 (function OStart _ -> true | _ -> false) base)
+      (start_scenarios ()) in
+  [ { name = "C12/ignored-SIGCHLD-x-failing-starts-x-single-faults"; exhaustive = true; scs = ignored };
+    { name = "C12/masks-x-dispositions-x-single-faults"; exhaustive = true;
       scs = fault_family ~variant:(fun k -> (masks.(k mod 4), disps.(k mod 3))) tier [ destroy () ] } ]
 
 (* ---- C07 / C15: stop grids ---- *)
@@ -770,6 +796,17 @@ let fam_c02 tier r =
               ({ default_options with o_err = rd 1; o_input_data = true; o_input_size = z 6 }, []);
               ({ default_options with o_in = rd 3; o_err = rd 1 }, []) ])
           [ []; [ 2 ]; [ 0 ]; [ 1 ]; [ 0; 1; 2 ] ] };
+    (* the parent's end of an output pipe lands on descriptor 0 (parent started without stdin, child's
+       stdin handed over by the caller so nothing else takes the number): polled alone, drained, read *)
+    { name = "C02/parent-end-on-descriptor-0"; exhaustive = true;
+      scs = List.concat_map (fun layout ->
+          List.map (fun ops ->
+              let fds = List.filter (fun (k, _) -> int_of_z k > 2 || List.mem (int_of_z k) layout) user_fds in
+              { sc_world = world_with ~fds ~files:user_files [ [ a_sleep 30; a_write 1 12; a_write 2 2; a_exit 0 ] ];
+                sc_ops = [ new_ (); start ~opts:{ default_options with o_in = rd ~h:5 5; o_err = rd 1 } (c 0) ] @ ops
+                         @ [ sleep 60; read 1 20; read 2 10; read 1 10; wait 200; destroy () ] })
+            [ [ drain () ]; [ poll ~t:100 [ (0, 2) ]; read 1 20 ]; [ poll ~t:100 [ (0, 4) ]; poll ~t:100 [ (0, 6) ] ]; [] ])
+          [ []; [ 2 ]; [ 1; 2 ]; [ 1 ] ] };
     { name = "C02/random-histories"; exhaustive = false; scs = List.init n (fun k -> rand_history (split r k)) } ]
 
 let fam_c16 tier r =
